@@ -102,6 +102,10 @@ func runC03(c *Ctx) bool {
 		d, n := gen.DeepMixed(depth)
 		shapes = append(shapes, [2]any{d, n})
 	}
+	{
+		d, n := gen.LongDup() // repeated sibling names of 63 ... 255 bytes
+		shapes = append(shapes, [2]any{d, n})
+	}
 	for _, sh := range shapes {
 		i := idx
 		idx++
